@@ -23,7 +23,7 @@ class Scenario:
     """one process-model call with everything needed to repeat or vary it"""
 
     def __init__(self, rng, kinds=None, coarse=False, modes=None, models=("NRTL", "UNIQUAC"), max_steps=30,
-                 p_synth=0.35, basis=None, allow_program=True, nonideal_orders=1, builtin_only=False, default_orders=0.0):
+                 p_synth=0.35, basis=None, allow_program=True, nonideal_orders=1, builtin_only=False, default_orders=0.0, long_runs=0.01):
         from pyvaporation.conditions import Conditions
         from pyvaporation.pervaporation import Pervaporation
 
@@ -35,6 +35,11 @@ class Scenario:
         if rng.random() < 0.4:
             self.model = gen.fresh_str(self.model)
         self.membrane = gen.gen_membrane(rng, self.mix)
+        if rng.random() < 0.05 and not builtin_only:
+            import pickle
+
+            # objects that went through pickle (multiprocessing, joblib, a cache): equal values, new identities
+            self.mix, self.membrane = pickle.loads(pickle.dumps((self.mix, self.membrane)))
         self.pv = Pervaporation(self.membrane, self.mix)
         self.t0 = gen.pick_temperature(rng, 283.0, 390.0)
         self.x0 = gen.pooled_composition(rng) if (basis in (None, "weight") and rng.random() < 0.15) else gen.gen_composition(rng, self.mix, basis=basis, edge=0.02)
@@ -52,6 +57,8 @@ class Scenario:
             if rng.random() < 0.5:
                 self.area, self.m0 = rng.randint(1, 20), rng.randint(1, 200)
         self.n = rng.randint(1, max_steps)
+        if self.ideal and not coarse and long_runs and rng.random() < long_runs:
+            self.n = rng.randint(1001, 1500)  # a long run (step-count dependent code paths)
         self.precision = gen.loguniform(rng, 1e-6, 1e-3)
         self.coarse = coarse
         # non-ideal ingredients
